@@ -58,15 +58,55 @@ DECOY0 = 1000
 NONHEX_TAIL = "0123456789ABCDEFGHJKMNPQRSTUVWXYZghjkmnpqrstuvwxyz"
 
 
-def make_canaries(rng, hist):
-    """kid -> key value.  hex keys: 64 random hex digits (mixed case allowed by hex::decode; we use upper case
-    as the host does); non-hex keys: 64 characters, first one 'Z' (so hex::decode fails at index 0)."""
+VALID_SHAPES = ["upper64", "lower64", "mixed64", "empty"]
+INVALID_SHAPES = ["odd63", "bad_start", "bad_middle", "bad_end", "ws_padded", "prefix_0x", "odd_bad"]
+
+
+def hex_decode_accepts(value):
+    """what hex::decode accepts, stated independently of the Rust code: an even number of characters, all of
+    them hex digits (-> (even_length, all_hex_digits))"""
+    return (len(value) % 2 == 0, all(c in "0123456789abcdefABCDEF" for c in value))
+
+
+def shaped_value(rng, shape):
+    up = lambda n: "".join(rng.choice("0123456789ABCDEF") for _ in range(n))
+    if shape == "upper64":
+        return up(64)
+    if shape == "lower64":
+        return up(64).lower()
+    if shape == "mixed64":
+        return "".join(c.lower() if rng.random() < 0.5 else c for c in up(64))
+    if shape == "empty":
+        return ""
+    if shape == "odd63":                       # all hex digits, odd length: only hex::decode's OddLength refuses it
+        return up(63)
+    if shape == "bad_start":
+        return "Z" + "".join(rng.choice(NONHEX_TAIL) for _ in range(63))
+    if shape == "bad_middle":
+        return up(31) + "g" + up(32)
+    if shape == "bad_end":
+        return up(63) + "G"
+    if shape == "ws_padded":
+        return " " + up(64) + " "
+    if shape == "prefix_0x":
+        return "0x" + up(62)
+    if shape == "odd_bad":
+        return up(40) + "-" + up(22)
+    raise ValueError(shape)
+
+
+def default_shapes(hist):
+    return {kid: ("upper64" if is_hex else "bad_start") for kid, is_hex in key_ids(hist).items()}
+
+
+def make_canaries(rng, hist, shapes=None):
+    """kid -> key value, a fresh random canary of the key's shape (see VALID_SHAPES / INVALID_SHAPES)."""
+    shapes = shapes or default_shapes(hist)
     keys = {}
     for kid, is_hex in sorted(key_ids(hist).items()):
-        if is_hex:
-            keys[kid] = "".join(rng.choice("0123456789ABCDEF") for _ in range(64))
-        else:
-            keys[kid] = "Z" + "".join(rng.choice(NONHEX_TAIL) for _ in range(63))
+        keys[kid] = shaped_value(rng, shapes.get(kid, "upper64" if is_hex else "bad_start"))
+        ev, ah = hex_decode_accepts(keys[kid])
+        assert (ev and ah) == bool(is_hex), (kid, shapes.get(kid), is_hex)
     # decoys: key-like material in the bodies the agent is supposed to ignore (error answers of the key
     # endpoint, every answer of the attestation endpoint).  They are outside the model (ids >= 1000) and
     # must never show up anywhere.
@@ -250,7 +290,9 @@ def _run_history_once(ctx, binary, hist, keys, idx, strace, variant, predir, cho
 # ------------------------------------------------------------------------------------------
 # the canary scan
 # ------------------------------------------------------------------------------------------
-def encodings(value, is_hex):
+def encodings(value, is_hex=None):
+    ev, ah = hex_decode_accepts(value)
+    is_hex = ev and ah and len(value) > 0
     raw = value.encode()
     forms = {"raw": raw, "lower": raw.lower(), "upper": raw.upper(),
              "b64": base64.b64encode(raw), "b64url": base64.urlsafe_b64encode(raw)}
@@ -442,7 +484,7 @@ def cbool(b):
     return "true" if b else "false"
 
 
-def coq_op(op):
+def coq_op(op, keys=None):
     if op[0] == "poll":
         _, st, k, a = op
         if st[0] == "ok":
@@ -450,7 +492,11 @@ def coq_op(op):
         else:
             s = {"err": "SErr", "malformed": "SMalformed", "invalid": "SInvalid"}[st[0]]
         if k[0] == "ok":
-            kk = "(KOk %d %s)" % (k[1], cbool(k[2]))
+            if keys is not None and k[1] in keys:
+                ev, ah = hex_decode_accepts(keys[k[1]])
+                kk = "(KOk %d (hex_decode_accepts %s %s))" % (k[1], cbool(ev), cbool(ah))
+            else:
+                kk = "(KOk %d %s)" % (k[1], cbool(k[2]))
         elif k[0] == "err":
             kk = "KErr"
         else:
@@ -461,8 +507,8 @@ def coq_op(op):
     return {"restart": "Restart", "client": "ClientRequest", "timeup": "ProvisionTimeup", "status_tick": "StatusTick"}[op[0]]
 
 
-def coq_history(hist):
-    return "[" + "; ".join(coq_op(o) for o in hist) + "]" if hist else "(@nil op)"
+def coq_history(hist, keys=None):
+    return "[" + "; ".join(coq_op(o, keys) for o in hist) + "]" if hist else "(@nil op)"
 
 
 def coq_variant(v):
@@ -471,12 +517,13 @@ def coq_variant(v):
     return "{| fix_hex := %s; fix_body := %s |}" % (cbool(v[0]), cbool(v[1]))
 
 
-def model_eval(ctx, variant, hists, name="cases", predirs=None, chown_oks=None):
+def model_eval(ctx, variant, hists, name="cases", predirs=None, chown_oks=None, keys=None):
     predirs = predirs or [False] * len(hists)
     chown_oks = chown_oks or [True] * len(hists)
+    keys = keys or [None] * len(hists)
     exprs = ["(vector (run_env %s %s %s %s), map sys_code (sys_trace %s %s %s %s))" % (
-                coq_variant(variant), cbool(pd), cbool(co), coq_history(h), coq_variant(variant), cbool(pd), cbool(co), coq_history(h))
-             for h, pd, co in zip(hists, predirs, chown_oks)]
+                coq_variant(variant), cbool(pd), cbool(co), coq_history(h, ks), coq_variant(variant), cbool(pd), cbool(co), coq_history(h, ks))
+             for h, pd, co, ks in zip(hists, predirs, chown_oks, keys)]
     res = vplib.coq_eval(ctx, REQ, exprs, shard=25, name=name)
     out = []
     for vec, tr in res:
@@ -547,7 +594,26 @@ FIXED_CASES = [
 ]
 
 
+# every shape of an undecodable key value (the host then even claims the key latched), and every decodable one
+SHAPE_CASES = [
+    ([("poll", ("ok", True, None, 1), ("ok", 1, False), "ok"), ("poll", ("ok", True, 1, 1), ("ok", 1, False), "ok"), ("client",),
+      ("poll", ("ok", True, None, 1), ("ok", 2, False), "ok"), ("poll", ("ok", True, None, 1), ("ok", 3, False), "ok"),
+      ("poll", ("ok", True, None, 1), ("ok", 4, False), "ok"), ("client",), ("status_tick",), ("provision", False), ("timeup",)],
+     {1: "odd63", 2: "bad_start", 3: "bad_middle", 4: "bad_end"}),
+    ([("poll", ("ok", True, None, 1), ("ok", 1, False), "ok"), ("poll", ("ok", True, None, 1), ("ok", 2, False), "ok"),
+      ("poll", ("ok", True, None, 1), ("ok", 3, False), "ok"), ("restart",), ("poll", ("ok", True, 3, 1), ("ok", 4, False), "err"),
+      ("client",), ("status_tick",), ("provision", True), ("timeup",)],
+     {1: "ws_padded", 2: "prefix_0x", 3: "odd_bad", 4: "odd63"}),
+    ([("poll", ("ok", True, None, 1), ("ok", 1, True), "ok"), ("client",), ("poll", ("ok", True, None, 1), ("ok", 2, True), "ok"), ("client",),
+      ("poll", ("ok", True, None, 1), ("ok", 3, True), "ok"), ("client",), ("poll", ("ok", True, None, 1), ("ok", 4, True), "ok"), ("client",),
+      ("status_tick",), ("provision", False), ("timeup",)],
+     {1: "lower64", 2: "mixed64", 3: "empty", 4: "upper64"}),
+]
+
+
 def gen_history(rng, faults=True):
+    """-> (history, {kid: shape of the key value})"""
+    shapes = {}
     enabled = rng.random() < 0.8
     latched = None
     next_kid = 1
@@ -581,11 +647,13 @@ def gen_history(rng, faults=True):
             kr = rng.random() if faults else 0.0
             if latched is not None and rng.random() < 0.7:
                 k = ("ok", latched, hexness[latched])        # re-issue of the latched key
-            elif kr < 0.55:
+            elif kr < 0.50:
                 kid = next_kid; next_kid += 1; hexness[kid] = True
+                shapes[kid] = "empty" if rng.random() < 0.04 else rng.choice(VALID_SHAPES[:3])
                 k = ("ok", kid, True)
-            elif kr < 0.70:
+            elif kr < 0.72:
                 kid = next_kid; next_kid += 1; hexness[kid] = False
+                shapes[kid] = rng.choice(INVALID_SHAPES)
                 k = ("ok", kid, False)
             elif kr < 0.90:
                 kid = next_kid; next_kid += 1; hexness[kid] = True
@@ -613,7 +681,7 @@ def gen_history(rng, faults=True):
             hist.append(("timeup",))
     # make what leaked observable: every history ends with the observation ops
     hist += [("client",), ("status_tick",), ("provision", False), ("timeup",)]
-    return hist
+    return hist, shapes
 
 
 def hist_json(hist):
@@ -645,18 +713,22 @@ def run(ctx):
 
     n_random = 114 if ctx.quick else 2000
     n_strace = 24 if ctx.quick else 200
-    hists = [WITNESS_HEX, WITNESS_BODY] + FIXED_CASES
+    hists = [WITNESS_HEX, WITNESS_BODY] + FIXED_CASES + [h for h, _ in SHAPE_CASES]
+    shapes = [None] * (2 + len(FIXED_CASES)) + [sh for _, sh in SHAPE_CASES]
+    n_fixed = len(hists)
     for i in range(n_random):
-        hists.append(gen_history(rng, faults=(i % 3 != 0)))
-    canaries = [make_canaries(rng, h) for h in hists]
-    predirs = [False] * (2 + len(FIXED_CASES)) + [rng.random() < 0.3 for _ in range(n_random)]
+        h, sh = gen_history(rng, faults=(i % 3 != 0))
+        hists.append(h)
+        shapes.append(sh)
+    canaries = [make_canaries(rng, h, sh) for h, sh in zip(hists, shapes)]
+    predirs = [False] * n_fixed + [rng.random() < 0.3 for _ in range(n_random)]
     predirs[3] = True
     # environment fault: chown is refused (only meaningful on a directory somebody else owns)
     chown_fails = [pd and rng.random() < 0.4 for pd in predirs]
     predirs[4] = True
     chown_fails[4] = True
     variants = [rng.randrange(4) for _ in hists]
-    straced = set(range(len(FIXED_CASES) + 2)) | set(rng.sample(range(len(hists)), min(n_strace, len(hists))))
+    straced = set(range(n_fixed)) | set(rng.sample(range(len(hists)), min(n_strace, len(hists))))
     straced |= {i for i, c in enumerate(chown_fails) if c}
 
     # ---------------- implementation ----------------
@@ -683,7 +755,12 @@ def run(ctx):
     variant = (True, True)
 
     # ---------------- model ----------------
-    model = model_eval(ctx, variant, hists, predirs=predirs, chown_oks=[not c for c in chown_fails])
+    model = model_eval(ctx, variant, hists, predirs=predirs, chown_oks=[not c for c in chown_fails], keys=canaries)
+    # a key whose value is the empty string cannot be searched for: it is left out of the comparison
+    for i in range(len(hists)):
+        blind = {k for k, v in canaries[i].items() if not v}
+        if blind:
+            model[i] = ({sk: [k for k in ks if k not in blind] for sk, ks in model[i][0].items()}, model[i][1])
 
     # ---------------- compare + the property on the implementation's behaviour ----------------
     known = {f.get("class") for f in vplib.known_findings("C12")}
@@ -691,7 +768,7 @@ def run(ctx):
     leaks_seen = 0
     for i, h in enumerate(hists):
         im, (mvec, mtr) = impl[i], model[i]
-        case = {"index": i, "history": hist_json(h), "keys": {str(k): v for k, v in canaries[i].items()}, "body_variant": variants[i],
+        case = {"index": i, "history": hist_json(h), "keys": {str(k): v for k, v in canaries[i].items()}, "body_variant": variants[i], "key_shapes": {str(k): v for k, v in (shapes[i] or default_shapes(h)).items()},
                 "key_dir_preexists": predirs[i], "chown_refused": chown_fails[i]}
         if not im["ok"]:
             disagreements.append({"case": case, "model": "history runs to completion", "impl": "driver error: %s" % im["error"]})
@@ -735,10 +812,10 @@ def run(ctx):
         "evaluations": len(hists),
         "distinct_nontrivial": len(nontrivial),
         "traces_validated_against_impl": len(hists) - len({d["case"]["index"] for d in disagreements}),
-        "rule": "2 refutation witnesses + %d hand-written histories + %d random histories (3..10 ops + 4 closing observation ops; <= 6 polls; host state machine "
+        "rule": "2 refutation witnesses + %d hand-written histories (incl. one poll per key-value shape: upper/lower/mixed-case hex, empty, 63 hex digits, a non-hex character at start / middle / end, white-space padded, 0x prefix, odd and bad) + %d random histories (3..10 ops + 4 closing observation ops; <= 6 polls; host state machine "
                 "with enable/disable, rotation, rule changes; one third without host faults); non-trivial = at least one poll with a valid status "
                 "document of an enabled channel, distinct by content; every key id has a fresh random 64-character canary; %d histories under strace"
-                % (len(FIXED_CASES), n_random, len(straced)),
+                % (n_fixed - 2, n_random, len(straced)),
         "exhaustive": False,
         "model_variant": {"fix_hex": variant[0], "fix_body": variant[1], "name": "Taint.current"},
         "files_scanned": sum(im["nfiles"] for im in impl),
@@ -748,6 +825,8 @@ def run(ctx):
             {"history": hist_json(hists[1]), "impl": {k: v for k, v in impl[1]["obs"].items() if v}, "model": {k: v for k, v in model[1][0].items() if v}},
             {"history": hist_json(hists[2]), "impl": {k: v for k, v in impl[2]["obs"].items() if v}, "model": {k: v for k, v in model[2][0].items() if v},
              "keydir_trace": impl[2]["trace"]},
+            {"history": hist_json(hists[6]), "key_shapes": shapes[6], "impl": {k: v for k, v in impl[6]["obs"].items() if v},
+             "model": {k: v for k, v in model[6][0].items() if v}},
         ],
         "input_distribution": {
             "histories": len(hists), "polls": sum(1 for h in hists for o in h if o[0] == "poll"),
@@ -756,6 +835,8 @@ def run(ctx):
             "provision_queries": sum(1 for h in hists for o in h if o[0] == "provision"),
             "status_faults": sum(1 for h in hists for o in h if o[0] == "poll" and o[1][0] != "ok"),
             "nonhex_keys": sum(len(nonhex_kids(h)) for h in hists),
+            "key_value_shapes": {sh: sum(1 for i, h in enumerate(hists) for v in (shapes[i] or default_shapes(h)).values() if v == sh)
+                                 for sh in VALID_SHAPES + INVALID_SHAPES},
             "malformed_key_bodies": sum(len(malformed_kids(h)) for h in hists),
             "attest_failures": sum(1 for h in hists for o in h if o[0] == "poll" and o[3] == "err"),
             "histories_with_any_leak": sum(1 for im in impl if any(im["obs"][s] for s in SINKS if s not in ALLOWED)),
